@@ -3,7 +3,8 @@
    limit, the first inline level of fill_symbol's loop.  (The translator additionally pins the shape of each modelled
    function and aborts when it changes; that part is a checked tie, not a theorem.) *)
 From Coq Require Import ZArith List Bool.
-From RM Require Import Gen.C03Sites C03.Model C03.FetchModel.
+From RM Require Import Gen.C03Sites C03.Model C03.FetchModel C03.ProcessModel.
+From RM Require C05.Model.
 Import ListNotations.
 Open Scope Z_scope.
 
@@ -24,4 +25,29 @@ Proof. destruct c; vm_compute; reflexivity. Qed.
 Lemma guard_const_agrees : GUARD_MEMORY_MAX_SIZE = gen_guard_memory_max_size.
 Proof. reflexivity. Qed.
 Lemma inline_first_depth_agrees : gen_inline_first_depth = 1.
+Proof. reflexivity. Qed.
+
+(* ---- round 5: into_process_state.  The model's context selection and stack-memory choice, rewritten over the
+   expressions the translator reads out of processor.rs (operand order of the three `.or()`s, width of the probe) *)
+Lemma requesting_flag_from_source : forall pi t, opt_is (pi_dump_tid pi) (th_id t) = false ->
+  s0_req (initial_stack pi t) = opt_is (gen_wanted_id (pi_crash_tid pi) (pi_req_tid pi)) (th_id t).
+Proof.
+  intros pi t H. unfold initial_stack. rewrite H. unfold gen_wanted_id, gen_or.
+  change (match pi_crash_tid pi with Some _ => pi_crash_tid pi | None => pi_req_tid pi end) with (opt_or (pi_crash_tid pi) (pi_req_tid pi)).
+  destruct (opt_is (opt_or (pi_crash_tid pi) (pi_req_tid pi)) (th_id t)); reflexivity.
+Qed.
+Lemma selected_context_from_source : forall pi t, opt_is (pi_dump_tid pi) (th_id t) = false ->
+  s0_ctx (initial_stack pi t) =
+  if opt_is (gen_wanted_id (pi_crash_tid pi) (pi_req_tid pi)) (th_id t)
+  then gen_selected_context (pi_exc_ctx pi) (th_ctx t) else th_ctx t.
+Proof.
+  intros pi t H. unfold initial_stack. rewrite H. unfold gen_wanted_id, gen_selected_context, gen_or.
+  change (match pi_crash_tid pi with Some _ => pi_crash_tid pi | None => pi_req_tid pi end) with (opt_or (pi_crash_tid pi) (pi_req_tid pi)).
+  destruct (opt_is (opt_or (pi_crash_tid pi) (pi_req_tid pi)) (th_id t)); reflexivity.
+Qed.
+Lemma stack_choice_from_source : forall mem t r v,
+  choose_stack_memory mem t (Some (r, v)) =
+  let sm := thread_stack_memory mem t in
+  if match sm with Some m => region_reads m gen_stack_probe_bytes (C05.Model.r_sp r) | None => false end
+  then sm else gen_stack_fallback (memory_at mem (C05.Model.r_sp r)) sm.
 Proof. reflexivity. Qed.
